@@ -7,7 +7,7 @@ From TV Require Import C01.Model C01.Proofs1 C01.Proofs2 C01.Proofs3 C01.Proofs4
 
 Local Open Scope string_scope.
 Local Open Scope list_scope.
-Definition cfg0 : cfg := {| max_header := 1000; max_body := 1000; body_override := None; chunk_pred := 15 |}.
+Definition cfg0 : cfg := {| max_header := 1000; max_body := 1000; body_override := None; chunk_pred := 15; no_keep_alive := false |}.
 Definition nl : bytes := [13; 10]%N.
 Definition lines (ls : list string) : bytes := concat (map (fun s => s2b s ++ nl) ls).
 
